@@ -49,6 +49,91 @@ def bounds_rule(ck, mod, label):
     return n, unknown
 
 
+def nowrap_rule(ck, mod, label):
+    """R-C06-NOWRAP: side condition of the bounds proof - the integer (non-wrapping) model of size_t arithmetic is exact.
+    For every 64-bit add/sub whose affine value has a negative part: proven non-negative from the dominating comparisons
+    (consistent case splits), or REFUTED by a witness: parameter values that satisfy every dominating condition of the
+    block (which is inevitably reached under them) and make the value negative, i.e. the length wraps to ~2^64 and the
+    accesses it bounds leave the buffers.  Anything else is listed as not decided (no verdict)."""
+    import itertools
+    n = {"proven": 0, "refuted": 0, "unknown": 0}
+    notes = []
+    for f in sorted(mod.fns.values(), key=lambda f: f.name):
+        if not f.blocks:
+            continue
+        fb = bounds.FnBounds(mod, f)
+        for I in f.insts:
+            if I.op not in ("sub", "add") or I.bits != 64:
+                continue
+            lin = fb.A.value(("i", I.id))
+            if fb._trivially_nonneg(lin):
+                continue
+            cons = "length-arith#%s[%s]" % (_an(f, I), label)
+            if fb.prove_nonneg_cases(lin, I.b):
+                n["proven"] += 1
+                ck.ok("R-C06-NOWRAP", f.name, cons, "%s cannot wrap below zero here" % fb.A.names(lin), where=relpath(I.where))
+                continue
+            wit = _wrap_witness(f, fb, lin, I.b)
+            if wit:
+                n["refuted"] += 1
+                ck.bad("R-C06-NOWRAP", f.name, cons, "the length %s wraps below zero for %s, which satisfies every check made before this point: the value becomes ~2^64 and the accesses it bounds "
+                       "run past the caller's buffers" % (fb.A.names(lin), wit), where=relpath(I.where))
+            else:
+                n["unknown"] += 1
+                notes.append("%s %s: %s not shown non-negative" % (f.name, relpath(I.loc), fb.A.names(lin)))
+    return n, notes
+
+
+def _inevitable(f, b):
+    """is block b reached on every execution that satisfies the branch conditions ir.conditions_at(f, b) reports?
+    (walk up the dominator tree: each step is either unconditional (post-dominance) or one recorded conditional edge)"""
+    cur = b
+    seen = set()
+    while cur not in seen:
+        seen.add(cur)
+        d = f.blocks[cur].idom
+        if d == -1:
+            return True
+        if f.postdominates_block(cur, d):
+            cur = d
+            continue
+        ok = False
+        for s_ in f.blocks[d].succs:
+            if f.dominates_block(s_, cur) and (s_ == cur or f.postdominates_block(cur, s_)):
+                others = [p for p in f.blocks[s_].preds if p != d and not f.dominates_block(s_, p)]
+                if not others and f.blocks[d].succs.count(s_) == 1 and ir.edge_cond(f, d, s_):
+                    ok = True
+        if not ok:
+            return False
+        cur = d
+    return False
+
+
+def _wrap_witness(f, fb, lin, block):
+    import itertools
+    if not _inevitable(f, block):
+        return None
+    facts = list(fb.ineqs_at(block))
+    eqs = list(fb.A.facts_at(block))
+    syms = set(s_ for s_ in lin if s_ != 1)
+    for g in facts + eqs:
+        syms |= set(s_ for s_ in g if s_ != 1)
+    if not syms or any(not (isinstance(s_, tuple) and s_[0] == "a") for s_ in syms):
+        return None
+    syms = sorted(syms)
+    if len(syms) > 3:
+        return None
+    cand = sorted({0, 1, 2, 3, 4, 5, 6, 7, 8, 9, 15, 16, 17, 31, 32, 33, 63, 64, 65} | {abs(int(g.get(1, 0))) + d_ for g in facts + eqs + [lin] for d_ in (-1, 0, 1) if abs(int(g.get(1, 0))) + d_ >= 0})
+
+    def ev(g, asg):
+        return sum(c * (asg[s_] if s_ != 1 else 1) for s_, c in g.items())
+    for vals in itertools.product(cand, repeat=len(syms)):
+        asg = dict(zip(syms, vals))
+        if all(ev(g, asg) >= 0 for g in facts) and all(ev(g, asg) == 0 for g in eqs) and ev(lin, asg) < 0:
+            return ", ".join("%s = %d" % (f.params[s_[1]]["name"], v) for s_, v in asg.items())
+    return None
+
+
 def _an(f, I):
     return "%s%d" % (I.op, sum(1 for J in f.insts[:I.id] if J.op == I.op))
 
@@ -169,18 +254,21 @@ def run(ck, build):
     ck.rule("R-C06-BOUNDS", "every load, store, mem intrinsic and call argument of every library function stays inside the object it derives from: address = object + affine offset (SCEV "
             "recurrences, paired non-affine cursors), object sizes from the contract table (fixed sizes, paired length parameters, DWARF state sizes) and allocas; bounds follow from the "
             "dominating comparisons, with consistent case splits on merge phis; call sites are checked against the callee's contract (assume/guarantee)")
+    ck.rule("R-C06-NOWRAP", "side condition of the bounds proof: every size_t subtraction whose affine value has a negative part is non-negative under the dominating comparisons (so the integer model "
+            "of length arithmetic is exact: clen - 8 after the clen >= 8 guard, remaining - 4 under remaining >= 4, 16 - posn under the field invariant ...); refuted only by a witness - parameter values "
+            "that pass every earlier check and make the length wrap to ~2^64")
     ck.rule("R-C06-INV", "the inter-call invariants the bounds proof assumes (hash block position <= 15, HKDF block position <= 32) are re-established by every store to those fields")
     ck.rule("R-C06-BYTEWISE", "every load/store whose points-to set contains a caller byte buffer claims alignment 1 (N0 and -O3 IR) and is one byte wide (N0): no misaligned access, no host-endianness dependence")
     ck.rule("R-C06-CONST", "no store or mem intrinsic writes through a pointer-to-const parameter (whole-module points-to)")
     ck.rule("R-C06-SHIFT", "every shift has a constant amount below the operand width")
     ck.rule("R-C06-NSW", "signed nsw arithmetic with derivable operand ranges cannot overflow (known-bits ranges); others are listed as not decided")
     ck.rule("R-C06-EXACT", "exact output ranges: AEAD/SIV functions write exactly [0,mlen+8) / [0,clen-8) (per path class, via the mode summaries), refused calls write nothing, "
-            "generate_tag writes exactly 8 bytes; check_tag's wipe and tinyjambu_clean cover exactly the requested bytes (D-COV)")
+            "generate_tag writes exactly 8 bytes; check_tag's wipe and tinyjambu_clean never write outside the requested bytes (D-COV; whether they cover all of them is C04's / C20's)")
     ck.rule("R-C06-WITNESS", "compile-fail witnesses: all library units compile with cast-align, cast-qual, shift-count, vla, array-bounds, uninitialized promoted to errors")
     ck.not_decided += ["reads of uninitialised local bytes beyond what clang's -Wuninitialized and the mode summaries see", "nsw arithmetic whose operands are loop counters / opaque (listed in notes)",
                        "optimised objects beyond the alignment claims of the -O3 IR; gcc", "zero-length pointers may still be passed to memcpy(…, 0) (defined in C2x; glibc does not touch them)"]
     ck.assume("contracts of tj/bounds.py (sizes of caller buffers as documented in TinyJAMBU.h); private state structs fit in and are no more aligned than the public ones (checked)")
-    ck.assume("unsigned lengths do not wrap (size_t arithmetic on buffer lengths); distinct parameters do not overlap except c == m")
+    ck.assume("distinct parameters do not overlap except c == m; size_t additions of caller lengths do not exceed 2^64 (mlen + 8)")
     mod = Module(build.facts("H", "N0"))
     ck.config("H", "N0")
     label = "H/N0"
@@ -189,6 +277,10 @@ def run(ck, build):
     for u in unknown:
         ck.note("bounds not decided: " + u)
     ck._c06_unknown = unknown
+    nw, nwnotes = nowrap_rule(ck, mod, label)
+    ck.floor("R-C06-NOWRAP", "length subtractions shown not to wrap", nw["proven"], 30)
+    for u in nwnotes:
+        ck.note("no-wrap side condition not decided: " + u)
     nacc = bytewise_const_rule(ck, mod, label)
     ck.floor("R-C06-BYTEWISE", "accesses to caller byte buffers examined (N0)", nacc, 300)
     ns = shift_rule(ck, mod, label)
@@ -214,7 +306,7 @@ def run(ck, build):
     ck.config("H", "R3")
     bytewise_const_rule(ck, mod3, "H/R3", width=False)
     # exact output ranges from the mode summaries and D-COV
-    rm = {"OUTRANGE": "R-C06-EXACT", "TAGPOS": "R-C06-EXACT", "LEN": "R-C06-EXACT"}
+    rm = {"OUTRANGE": "R-C06-EXACT", "LEN": "R-C06-EXACT"}       # where the tag sits inside the range is C01/C03's
     for ks in ("128", "192", "256"):
         aeadlib.check_gentag(ck, mod, ks, label, rm)
         aeadlib.check_absorb(ck, mod, ks, label, rm)
@@ -225,33 +317,32 @@ def run(ck, build):
         def __init__(self, ck):
             self._ck = ck
 
-        def ob(self, cond, rule, *a, **k):
-            return self._ck.ob(cond, "R-C06-EXACT", *a, **k) if rule == "R-C04-WIPE" else cond
+        # only the extent of the wipe is a memory-safety matter; its value and its completeness are C04's
+        def ob(self, cond, rule, fn, construct, *a, **k):
+            return self._ck.ob(cond, "R-C06-EXACT", fn, construct, *a, **k) if rule == "R-C04-WIPE" and construct.startswith("wipe-coverage") else cond
 
         def ok(self, rule, *a, **k):
-            if rule == "R-C04-WIPE":
-                self._ck.ok("R-C06-EXACT", *a, **k)
+            pass
 
         def bad(self, rule, *a, **k):
-            if rule == "R-C04-WIPE":
-                self._ck.bad("R-C06-EXACT", *a, **k)
+            pass
 
         def __getattr__(self, n_):
             return getattr(self._ck, n_)
-    C03.cmp_rule(_W(ck), mod, label)
+    C03.cmp_rule(_W(ck), mod, label, only_over=True)      # under-coverage of the wipe is C04's, not a memory-safety matter
     witness_rule(ck, build)
     # exact read set of the streaming hash input, per buffer-position class (D-COV in read mode)
     from .. import cov
-    ck.rule("R-C06-READS", "tinyjambu_hash_update reads exactly in[0, inlen): for each of the 16 buffer-position classes and every (alignment, length) class the memcpy sources tile [0, inlen) "
+    ck.rule("R-C06-READS", "tinyjambu_hash_update reads only inside in[0, inlen): for each of the 16 buffer-position classes and every (alignment, length) class the memcpy sources stay within [0, inlen) (bytes that are not read at all are a digest matter, C10/C11) "
             "(D-COV in read mode; trip counts from ScalarEvolution) - so no byte beyond the declared input can influence a digest")
     fu = mod.fn("tinyjambu_hash_update")
     posn_off = mod.field("tinyjambu_hash_state_p_t", "posn")["offset"]
     ncl = 0
     for pz in range(16):
-        ncls, bad, used = cov.coverage(fu, fu.param_index("in"), fu.param_index("inlen"), W=16, Q0=4, mode="read", field_consts={(0, posn_off): pz})
+        ncls, bad, used = cov.coverage(fu, fu.param_index("in"), fu.param_index("inlen"), W=16, Q0=4, mode="read", field_consts={(0, posn_off): pz}, only_over=True)
         ncl += ncls
         ck.ob(bad is None, "R-C06-READS", fu.name, "reads-exactly-input(posn=%d)[%s]" % (pz, label),
-              "with %d byte(s) buffered, exactly in[0, inlen) is read in all %d (alignment, length) classes" % (pz, ncls),
+              "with %d byte(s) buffered, only bytes of in[0, inlen) are read in all %d (alignment, length) classes" % (pz, ncls),
               "with %d byte(s) buffered and %s: %s" % (pz, bad[0] if bad else "", bad[1] if bad else ""), where=relpath("%s:%d" % (fu.file, fu.line)))
     # assembly backends: stores only to the four state words / own frame, loads inside the structure (C05's machine)
     from . import C05
